@@ -13,6 +13,8 @@ class Sched:
         asyncio.set_event_loop(self.loop)
 
     def _on_error(self, loop, context):
+        if 'never retrieved' in context.get('message', ''):
+            return          # garbage-collection time diagnostics: timing dependent, not behaviour
         self.loop_errors.append(context)
 
     def _factory(self, loop, coro, **kw):
